@@ -7,6 +7,7 @@ Bool and *forks* the current path when the library asks for its truth value.
 """
 import fractions
 import math
+import os
 import time
 
 import numpy as rnp
@@ -98,6 +99,9 @@ class Path:
         self.pending = []
         self.solver = z3.Solver()
         self.solver.set("timeout", BRANCH_TIMEOUT_MS)
+        self.lin = z3.Solver()  # the linear, function-free part of the path (a subset: unsat here => unsat)
+        self.lin.set("timeout", 200)
+        self.dirty = True  # an assumption was added since the path was last seen feasible
         self.inst = theory.Instantiator()
         self.assumed = []  # preconditions (z3 bools)
         self.nsolve = 0
@@ -108,6 +112,8 @@ class Path:
         for ax in self.inst.new_axioms([e]):
             self.solver.add(ax)
         self.solver.add(e)
+        if _is_linear(e):
+            self.lin.add(e)
 
 
 BRANCH_TIMEOUT_MS = 5000
@@ -133,6 +139,7 @@ def assume(cond):
         return
     p.assumed.append(e)
     p.add(e)
+    p.dirty = True
 
 
 def _timed(solver, timeout_s):
@@ -149,6 +156,55 @@ def _timed(solver, timeout_s):
             return "unknown"
     finally:
         timer.cancel()
+
+
+_LIN_CACHE = {}
+
+
+def _is_linear(e):
+    """True if the term has no uninterpreted function application and no product / quotient of two non-numerals."""
+    key = e.get_id()
+    hit = _LIN_CACHE.get(key)
+    if hit is not None and hit[0].eq(e):
+        return hit[1]
+    res = True
+    todo, seen = [e], set()
+    while todo and res:
+        t = todo.pop()
+        i = t.get_id()
+        if i in seen:
+            continue
+        seen.add(i)
+        if not z3.is_app(t):
+            res = False
+            break
+        k = t.decl().kind()
+        if k == z3.Z3_OP_UNINTERPRETED and t.num_args() > 0:
+            res = False
+        elif k == z3.Z3_OP_MUL:
+            if sum(1 for a in t.children() if not z3.is_rational_value(a) and not z3.is_int_value(a)) > 1:
+                res = False
+        elif k in (z3.Z3_OP_DIV, z3.Z3_OP_IDIV, z3.Z3_OP_MOD, z3.Z3_OP_REM, z3.Z3_OP_POWER):
+            if not (z3.is_rational_value(t.arg(1)) or z3.is_int_value(t.arg(1))):
+                res = False
+        todo.extend(t.children())
+    if len(_LIN_CACHE) > 20000:
+        _LIN_CACHE.clear()
+    _LIN_CACHE[key] = (e, res)
+    return res
+
+
+def _lin_refutes(p, cond):
+    if not _is_linear(cond):
+        return False
+    p.lin.push()
+    p.lin.add(cond)
+    try:
+        r = str(p.lin.check())
+    except z3.Z3Exception:
+        r = "unknown"
+    p.lin.pop()
+    return r == "unsat"
 
 
 def _branch_check(p, cond):
@@ -183,8 +239,26 @@ def decide(e):
         t0 = time.time()
         for ax in p.inst.new_axioms([e]):
             p.solver.add(ax)
-        rt = _branch_check(p, e)
-        rf = _branch_check(p, z3.Not(e))
+        # cheap first: the linear, function-free part of the path often settles bounds checks; a side refuted there is
+        # refuted, and the other side is then the (feasible) path itself
+        # (unless an assumption was added since the path was last seen feasible: then the other side is checked too)
+        ne = z3.Not(e)
+        if _lin_refutes(p, e):
+            rt, rf = "unsat", ("sat" if not p.dirty else _branch_check(p, ne))
+            STATS["branch_lin"] = STATS.get("branch_lin", 0) + 1
+        elif _lin_refutes(p, ne):
+            rt, rf = ("sat" if not p.dirty else _branch_check(p, e)), "unsat"
+            STATS["branch_lin"] = STATS.get("branch_lin", 0) + 1
+        else:
+            rt = _branch_check(p, e)
+            rf = "sat" if (rt == "unsat" and not p.dirty) else _branch_check(p, ne)
+        if "sat" in (rt, rf):
+            p.dirty = False
+        if os.environ.get("VERIF_SLOWBRANCH") and time.time() - t0 > float(os.environ["VERIF_SLOWBRANCH"]):
+            import sys as _s, traceback as _tb
+
+            fr = [f for f in _tb.extract_stack() if "/gstools/" in f.filename][-2:]
+            print(f"[slow branch {time.time() - t0:.1f}s {rt}/{rf}] {str(e)[:300]} @ {[(f.filename.split('/')[-1], f.lineno) for f in fr]}", file=_s.stderr)
         STATS["branch_queries"] += 2
         STATS["branch_time"] += time.time() - t0
         p.nsolve += 2
